@@ -285,10 +285,22 @@ func TestC03(t *testing.T) {
 				return
 			}
 			missing := car != "var" && car != "tag" && car != "rm" && st.zero && rapid.Bool().Draw(t, "missing")
+			collDecoy := ""
+			if rapid.IntRange(0, 11).Draw(t, "ruleCollision") == 0 && indexOf(c03Carriers(ty), "tag") >= 0 {
+				// two rule texts - one demanding the value, one not - that collide under a common 32-bit string hash
+				// (collide_test.go): one is the whole rule list of the tag, the other is used by an earlier call on the type
+				pair := rapid.SampledFrom(collidingRules()).Draw(t, "rulePair")
+				side := rapid.IntRange(0, 1).Draw(t, "ruleSide")
+				car, missing, rs, collDecoy = "tag", false, []string{pair[side]}, pair[1-side]
+			}
 			c := c03Case(ty, st, rs, car, missing)
+			if collDecoy != "" {
+				c.Decoy = collDecoy
+				ev.Class("rule-texts-with-colliding-32-bit-hashes")
+			}
 			c.ViaPtr = rapid.IntRange(0, 4).Draw(t, "viaPtr") == 0
 			c.LateRule = rapid.IntRange(0, 5).Draw(t, "lateRule") == 0
-			if car == "tag" && rapid.IntRange(0, 2).Draw(t, "decoy") == 0 {
+			if car == "tag" && collDecoy == "" && rapid.IntRange(0, 2).Draw(t, "decoy") == 0 {
 				// an earlier call on the same struct type whose per-call rule differs in required-ness
 				c.Decoy = rapid.SampledFrom([]string{"required", "required|decoy", "to=1~3", "ge=2|decoy", "phone"}).Draw(t, "decoyRule")
 				ev.Class("earlier-call-with-other-rule-on-same-type")
